@@ -11,6 +11,7 @@ PROP = {
              "every step every key of the key space is probed; non-trivial = a hit followed by a miss after expiry on the same key, or a "
              "re-store while the old entry's clean-up timer is still pending, or a refusal by the size limit; distinct = canonical JSON of the case"),
     "assumptions": [
+        "the URL pool holds URLs that differ only in the port of the host part (h.com/a, h.com:8080/a, h.com:9090/a) or in the letter case of the path: they are different URLs, a response stored for one is never an answer for another",
         "the gateway's log level (LOG_LEVEL: off in three cases of eight, else error / info / debug / trace; what is logged is thrown away, what a log statement does to build its arguments happens) is a generated part of every case of TestCachingHistories and TestThrottlingHistories: no answer may depend on it; a failing case reports its level",
         "the key of the statement is (method, URL, values of the payload paths of type path_params; empty = absent); path-parameter values are plain tokens "
         "and are varied independently of the URL as the repository's own plugin tests do (in production they are substrings of the URL)",
